@@ -80,12 +80,98 @@ def run(ctx):
                               f'xcp failed ({r.cls}) on a plain copy: {r.stderr.strip()[-200:]}', no_input=True)
                 continue
             br.verify_case(ctx, root, c, pairs, r, f'case-{i}')
+        hard_errors(ctx, root)
+        preallocated(ctx, root)
         if not ctx.quick:
             big_copy(ctx, root)
     ctx.cov['rule'] = ('sizes {0,1,b-1,b,b+1,kb-1,kb+1,3b+r} x b in {1,2,7,4096,65536,1MB,usize::MAX(--no-progress)} x dense/sparse (4K data runs, >=64K holes, >32 extents) '
-                       'x prior destination {absent, shorter, longer, longer for a sparse source} x driver x workers 1..9 x reflink {auto,never}, 30% with a clamped copy_file_range. '
+                       'x prior destination {absent, shorter, longer, longer for a sparse source} x driver x workers 1..9 x reflink {auto,never}, 30% with a clamped copy_file_range; + a failing data call (EIO/ENOSPC/EINTR, kernel or user-space path) in any thread; + sources with preallocated, freshly written space. '
                        'distinct = distinct (sizes, block, driver, workers, reflink, prior, plan); non-trivial = some file non-empty')
     ctx.assumptions += ['KernSafe/KernLive checked on every traced kernel answer', 'ext4 reports data/holes and extents soundly (checked by the byte oracle)']
+
+
+def same_bytes(pairs):
+    for src, dst, _ in pairs:
+        try:
+            with open(src, 'rb') as a, open(dst, 'rb') as b:
+                while True:
+                    x, y = a.read(1 << 20), b.read(1 << 20)
+                    if x != y: return f'{os.path.basename(dst)} differs from its source'
+                    if not x: break
+        except OSError as e:
+            return f'{os.path.basename(dst)}: {e}'
+    return None
+
+
+def hard_errors(ctx, root):
+    """a data-moving call that FAILS (EIO, ENOSPC, EINTR on the user-space path) in any thread: the run may fail, but an exit
+    status of 0 still means every file is byte-identical (an error reported only on the status channel must reach the exit status)"""
+    rng = ctx.rng
+    E = scen.ERRNO
+    n = 24 if ctx.quick else 300
+    for i in range(n):
+        c = br.Case()
+        c.driver = ['parblock', 'parfile'][i % 2]; c.workers = rng.choice([1, 2, 4]); c.reflink = 'never'; c.prior = rng.choice(['absent', 'longer'])
+        c.no_progress = rng.random() < 0.3; c.bsize = rng.choice([4096, 65536]); c.extra = []; c.tag = 'hard-error'
+        nb = rng.randint(2, 9)
+        c.files = [('f', [('seg', nb * c.bsize + rng.choice([0, 1, 777]), 11 + i)]), ('g', [('seg', rng.choice([10, 5000, 3 * c.bsize]), 50 + i)])]
+        victim = rng.choice(['f', 'g'])
+        kind = rng.choice(['cfr', 'cfr', 'uspace-write', 'uspace-read'])
+        en = rng.choice(['EIO', 'ENOSPC'])
+        if kind == 'cfr':
+            c.plan = [f'fail copy_file_range D/{victim} {rng.choice([1, 1, 2]) if victim == "f" else 1} {E[en]}']
+        elif kind == 'uspace-write':
+            c.plan = [f'fail copy_file_range * * {E["ENOSYS"]}', f'fail pwrite64 D/{victim} {rng.choice([1, 1, 2])} {E[en]}', f'fail write D/{victim} {rng.choice([1, 1, 2])} {E[en]}']
+        else:
+            er = rng.choice(['EIO', 'EINTR'])
+            c.plan = [f'fail copy_file_range * * {E["EXDEV"]}', f'fail pread64 S/{victim} {rng.choice([1, 1, 2])} {E[er]}'] + ([f'fail read S/{victim} {rng.choice([1, 1, 2])} {E["EIO"]}'] if er == 'EIO' else [])
+        pairs = br.setup_case(root, c)
+        r = scen.run_xcp(root, br.argv_of(c), plan=c.plan, timeout=120)
+        fired = sum(1 for e in r.trace if e.get('inj') and e['sys'] != 'copy_file_range' or (e.get('inj') and kind == 'cfr'))
+        ctx.count(f'hard_error.{kind}.' + ('fired' if fired else 'not_fired')); ctx.count(f'hard_error.exit.{r.cls}')
+        ctx.case(('hard-error', i, c.driver, c.workers, tuple(c.plan)), bool(fired))
+        if r.cls == 'hang':
+            ctx.violation(f'hard-{i}-hang.json', dict(case=c.__dict__), f'xcp hung under {c.plan}')
+        elif r.cls == '0':
+            why = same_bytes(pairs)
+            if why:
+                ctx.violation(f'hard-{i}.json', dict(case=c.__dict__, argv=br.argv_of(c), plan=c.plan, stderr=r.stderr[-400:]),
+                              f'C01: exit 0 but {why} after a failing data call; {c.driver} b={br.eff_bsize(c)} plan={c.plan}')
+
+
+def preallocated(ctx, root):
+    """sources with PREALLOCATED space (fallocate) that holds freshly written, not yet written-back data next to real holes"""
+    rng = ctx.rng
+    from .. import fsutil
+    for i in range(6 if ctx.quick else 60):
+        for sub in ('S', 'D'):
+            import shutil; shutil.rmtree(os.path.join(root, sub), ignore_errors=True)
+        os.makedirs(root + '/S')
+        src = root + '/S/pre'
+        length = rng.choice([8, 16]) * MB
+        fd = os.open(src, os.O_CREAT | os.O_TRUNC | os.O_RDWR, 0o644)
+        os.ftruncate(fd, length)
+        pa = rng.choice([0, 1, 5]) * MB; pl = rng.choice([1, 4]) * MB
+        os.posix_fallocate(fd, pa, pl)
+        woff = pa + rng.choice([0, 4096, pl // 2]); wlen = rng.choice([4096, 100000, pl // 2])
+        os.pwrite(fd, fsutil.lcg_bytes(min(wlen, pa + pl - woff), 7 + i), woff)
+        if rng.random() < 0.5:
+            os.pwrite(fd, b'tail-data' * 100, length - 5000)         # ordinary data after a hole
+        if i % 3 == 2:
+            os.fsync(fd)
+        os.close(fd)
+        driver = ['parblock', 'parblock', 'parfile'][i % 3]
+        argv = ['-r', '-T', '--driver', driver, '--workers', str(rng.choice([1, 4]))] + rng.choice([['--block-size', '65536'], ['--block-size', '1MB'], ['--no-progress']]) + ['S', 'D']
+        r = scen.run_xcp(root, argv, timeout=120)
+        ctx.count(f'preallocated.{driver}.' + ('synced' if i % 3 == 2 else 'dirty')); ctx.count(f'preallocated.exit.{r.cls}')
+        ctx.case(('preallocated', i, driver, tuple(argv)), True)
+        if r.cls != '0':
+            ctx.violation(f'prealloc-{i}-exit.json', dict(argv=argv, stderr=r.stderr[-400:]), 'copy of a source with preallocated space failed', no_input=True)
+        else:
+            why = same_bytes([(src, root + '/D/pre', None)])
+            if why:
+                ctx.violation(f'prealloc-{i}.json', dict(argv=argv, layout=dict(length=length, prealloc=(pa, pl), written=(woff, wlen), synced=i % 3 == 2)),
+                              f'C01: exit 0 but {why}: data written into preallocated space (len {length}, fallocate {pa}+{pl}, write {woff}+{wlen}); {driver}')
 
 
 def big_copy(ctx, root):
